@@ -743,6 +743,11 @@ def oracle(c, r, pub):
         if kind == 1 and in_domain(21, pks):
             if h != ["ok", spec_v21(pks).hex()]:
                 return ("dc:ecc:wrong", f"{c['family']} {c['keys']} -> {h}, documented {spec_v21(pks).hex()}")
+        if kind == 1 and 2 <= len(pks) <= 4 and all(klass(p) == ("ecc", 521) for p in pks):
+            # P-521 credentials (RotMetaEcc with 66-byte coordinates): SHA-512 over the table of SHA-512(X||Y)
+            want = hashlib.sha512(b"".join(hashlib.sha512(raw_material(p)).digest() for p in pks)).digest()
+            if h != ["ok", want.hex()]:
+                return ("dc:ecc-p521:wrong", f"{c['family']} {c['keys']} -> {h}, documented {want.hex()}")
         if kind == 2 and in_domain(3, pks):
             cas = [supply_id(e) == 2 for _, e in c["keys"]]
             fca = bool(c.get("flag_ca"))
